@@ -58,6 +58,16 @@ def audit_off():
     return list(_AUDIT["events"])
 
 
+def ref_file_name(value: str) -> str:
+    """the documented sanitising, written independently: NFKD -> ASCII, drop everything but word characters, white space and
+    hyphens, lower case, EVERY hyphen or white-space character becomes one underscore, strip leading/trailing '-' and '_'"""
+    import unicodedata
+
+    v = unicodedata.normalize("NFKD", str(value)).encode("ascii", "ignore").decode("ascii").lower()
+    kept = "".join(ch for ch in v if ch.isalnum() or ch == "_" or ch.isspace() or ch == "-")
+    return "".join("_" if (ch == "-" or ch.isspace()) else ch for ch in kept).strip("-_")
+
+
 def fill(mfa, rng):
     from ..gen import relayout
 
@@ -113,12 +123,18 @@ def one(rec, hub, seed, tier, i, tmpdir):
     for s_ in d.stocks:
         s_["name"] = s_["name"].replace("None", "nowhere")
     # names must stay distinct after sanitising (the statement's domain)
+    if i % 4 == 1 and len(d.flows) >= 2:
+        # names that differ only in how separators are repeated or placed stay distinct after sanitising
+        d.flows[0]["override"] = "scrap - sorting plant"
+        d.flows[1]["override"] = "scrap sorting - plant" if rng.random() < 0.5 else "scrap  sorting plant"
+    if i % 4 == 3 and len(d.stocks) >= 2:
+        d.stocks[0]["name"], d.stocks[1]["name"] = "in - use", "in use"
     names = [SY.flow_name(d, f) for f in d.flows]
-    san = [helper.to_valid_file_name(n) for n in names]
+    san = [ref_file_name(n) for n in names]
     if len(set(names)) != len(names) or len(set(san)) != len(san) or any(not x for x in san):
         rec.skip(M, "flow names not distinct after sanitising")
         return
-    sn = [helper.to_valid_file_name(s["name"]) for s in d.stocks]
+    sn = [ref_file_name(s["name"]) for s in d.stocks]
     if len(set(sn)) != len(sn):
         rec.skip(M, "stock names not distinct after sanitising")
         return
